@@ -95,3 +95,88 @@ def growth_step_races(c, base, nrep=None, tag='g'):
             c.violation('oracle', bad, r['lines'])
             continue
         c.nontriv(('growth', s_['akind'], s_['point'], k))
+
+
+def spanning_queries(c, base, nrep=2):
+    """a query that is still running while two stores commit: paused inside the caller's screening callback (the first event it
+    examines), two further events are stored - one belonging to the index range the query has already entered, one to a range
+    it has not reached - then it resumes.  Its answer must be the answer in ONE committed state: before both, between them, or
+    after both (never the later store without the earlier).  Shared by C14 (readers see whole committed states) and C05 (the
+    answer is exactly the matching retrievable events of a state)."""
+    import os
+    from .storecheck import HistGen, strip_now
+    from .gen import ev_tok, fl_tok, AUTHORS
+    rng = c.rng
+    # ---- a query that is still running while two stores commit: paused inside the caller's screening callback
+    # (the first event it examines), two further events are stored - one belonging to the index range the query
+    # has already entered, one to a range it has not reached - then it resumes. Its answer must be the answer in
+    # ONE committed state: before both, between them, or after both (never the later store without the earlier).
+    X, Y = AUTHORS[0], AUTHORS[1]
+    scen2 = []
+    for rep_i in range(nrep):
+        g = HistGen(rng, 'C14')
+        mk = lambda pk, kind, t, tags: g.new_event(kind=kind, pk=pk, t=t, tags=tags, content=b'c' * rng.choice([3, 200]))
+        tA, tB = [b't', b'a'], [b't', b'b']
+        fbase = dict(ids=[], authors=[], kinds=[], tags=[], since=None, until=None, limit=None)
+        shapes = [
+            ('akc-authors', dict(fbase, authors=[X, Y], kinds=[1]), (X, 1, [tA]), (X, 1, [tA]), (Y, 1, [tA])),
+            ('ac', dict(fbase, authors=[X, Y]), (X, 1, [tA]), (X, 7, [tA]), (Y, 1, [tA])),
+            ('akc-kinds', dict(fbase, authors=[X], kinds=[1, 7]), (X, 1, [tA]), (X, 1, [tA]), (X, 7, [tA])),
+            ('atc', dict(fbase, authors=[X, Y], tags=[[b't', b'a']]), (X, 1, [tA]), (X, 1, [tA]), (Y, 1, [tA])),
+            ('ktc', dict(fbase, kinds=[1, 7], tags=[[b't', b'a']]), (X, 1, [tA]), (Y, 1, [tA]), (X, 7, [tA])),
+            ('tc', dict(fbase, tags=[[b't', b'a', b'b']]), (X, 1, [tA]), (Y, 1, [tA]), (X, 1, [tB])),
+            # the ids plan: the listed ids are looked up one by one; an id passed over as absent and a later
+            # id must not be answered from different committed states
+            ('ids', None, (X, 1, [tA]), (Y, 1, [tA]), (X, 7, [tB])),
+        ]
+        for name, f, f0, ea, eb in shapes:
+            F0 = mk(f0[0], f0[1], 100, f0[2])
+            EA = mk(ea[0], ea[1], rng.choice([50, 150]), ea[2])
+            EB = mk(eb[0], eb[1], rng.choice([60, 160]), eb[2])
+            if name == 'ids':
+                f = dict(fbase, ids=[EA['id'], F0['id'], EB['id']])
+            fnd = 'FND %s 1 0 0 m' % fl_tok(f)
+            pre = ['STO ' + ev_tok(F0)]
+            scen2.append(dict(name=name, pre=pre, point='screen:call', a=fnd,
+                              b='SEQ STO %s ;; STO %s' % (ev_tok(EA), ev_tok(EB)), after=[fnd],
+                              states=[pre, pre + ['STO ' + ev_tok(EA)], pre + ['STO ' + ev_tok(EA), 'STO ' + ev_tok(EB)]], fnd=fnd))
+    # authors + kinds where one kind is replaceable: the pair (author, replaceable kind) is answered like every other pair, from
+        # the query's own snapshot - while it runs, a note it has already examined is deleted and the author's list is replaced
+        for rep_i in range(nrep):
+            g = HistGen(rng, 'C14')
+            N = g.new_event(kind=1, pk=X, t=100, tags=[[b't', b'a']], content=b'note')
+            R1 = g.new_event(kind=10002, pk=X, t=100, tags=[], content=b'list v1')
+            DN = g.new_event(kind=5, pk=X, t=150, tags=[[b'e', N['id'].hex().encode()]], content=b'')
+            R2 = g.new_event(kind=10002, pk=X, t=200, tags=[], content=b'list v2')
+            fbase = dict(ids=[], authors=[], kinds=[], tags=[], since=None, until=None, limit=None)
+            fnd = 'FND %s 1 0 0 m' % fl_tok(dict(fbase, authors=[X], kinds=[1, 10002]))
+            pre = ['STO ' + ev_tok(N), 'STO ' + ev_tok(R1)]
+            scen2.append(dict(name='akc-replaceable', pre=pre, point='screen:call', a=fnd,
+                              b='SEQ STO %s ;; STO %s' % (ev_tok(DN), ev_tok(R2)), after=[fnd],
+                              states=[pre, pre + ['STO ' + ev_tok(DN)], pre + ['STO ' + ev_tok(DN), 'STO ' + ev_tok(R2)]], fnd=fnd))
+        res2 = forced(c, base, scen2, tag='q')
+    # the answers in the three committed states (serial runs on the real store)
+    sl, spos = [], []
+    for k, s2 in enumerate(scen2):
+        for j, stl in enumerate(s2['states']):
+            sl += ['NEW %s -' % os.path.join(base, 'qs%d_%d' % (k, j))] + stl + [s2['fnd'], 'RMD']
+            spos.append(len(sl) - 2)
+    so2 = [strip_now(x) for x in c.worker.run(sl)]
+    for k, (s2, r2) in enumerate(zip(scen2, res2)):
+        if 'error' in r2 or 'HUNG' in r2.get('raw', '') or 'panic' in r2.get('raw', ''):
+            c.violation('oracle', 'running query vs two stores: schedule did not complete: %s' % (r2.get('error') or r2['raw'])[:90], r2['lines'])
+            continue
+        answers = [so2[spos[3 * k + j]] for j in range(3)]
+        c.count('spanning_query:%s:%s' % (s2['name'], 'reached' if r2['reached'] else 'not-reached'))
+        if r2['blocked']:
+            c.violation('oracle', 'two stores were blocked by a query paused in its screening callback', r2['lines'])
+            continue
+        if r2['after'][0] != answers[2]:
+            c.violation('oracle', 'after a query overlapped two stores the same query answers %s, serial: %s' % (r2['after'][0][:60], answers[2][:60]), r2['lines'])
+            continue
+        if r2['ra'] not in answers:
+            c.violation('oracle', 'a query (%s) that was running while two stores committed answered %s: that is the answer in no committed state (before: %s | between: %s | after: %s)' % (
+                s2['name'], r2['ra'][:80], answers[0][:60], answers[1][:60], answers[2][:60]), r2['lines'])
+            continue
+        if r2['reached']:
+            c.nontriv(('spanning', s2['name'], k))
